@@ -636,6 +636,22 @@ Lemma pmark_eq f st :
         let st3 := adv st2 in
         do (name, st4) <-
            (if is IDENTIFIER st3 then POk (text_of (cur st3)) (adv st3)
+            else if is NUMBER st3 then
+              match tv (cur st3) with
+              | TVNum raw =>
+                  match numcanon raw with
+                  | Some (_, c) =>
+                      let st' := adv st3 in
+                      if is IDENTIFIER st' then
+                        match text_of (cur st') with
+                        | [x] => if alpha x then POk (c ++ [x]) (adv st') else POk c st'
+                        | _ => POk c st'
+                        end
+                      else POk c st'
+                  | None => POut 5
+                  end
+              | _ => POut 5
+              end
             else if kin (ck st3) [NEWLINE; INDENT; LIST_START] then POk sid st3
             else err_at e006p (cur st3));
         do (annot, st5) <- consume_annotation true st4;
